@@ -1,0 +1,13 @@
+//! Verification-only re-exports, compiled only with the `__verif` feature.
+//! Thin wrappers: no logic of their own.
+use super::Type;
+
+pub fn type_is_scalar_only_subtype(parent: &Type, maybe_subtype: &Type) -> bool {
+    parent.is_scalar_only_subtype(maybe_subtype)
+}
+pub fn type_equal_ignoring_nullability(a: &Type, b: &Type) -> bool {
+    a.equal_ignoring_nullability(b)
+}
+pub fn type_is_orderable(a: &Type) -> bool {
+    a.is_orderable()
+}
